@@ -54,44 +54,43 @@ def rule_D(ctx):
     ldiag, li, lk = _dp_loops(f)
     mode_param = f.params[1]
     dv, iv, kv = ldiag.target.id, li.target.id, lk.target.id
-    pre_k = [s for s in li.body if s is not lk]
+    reads = {x.value.id for x in ast.walk(lk) if isinstance(x, ast.Subscript) and isinstance(x.ctx, ast.Load)
+             and isinstance(x.value, ast.Name) and isinstance(x.slice, ast.Tuple)}
+    stores = {x.value.id for x in ast.walk(lk) if isinstance(x, ast.Subscript) and isinstance(x.ctx, ast.Store)
+              and isinstance(x.value, ast.Name) and isinstance(x.slice, ast.Tuple)}
+    val_t = sorted(reads & stores)
+    ptr_t = sorted(stores - reads)
+    if len(val_t) != 1 or len(ptr_t) != 1:
+        raise shape_error('optimalPartition: cannot identify value/split tables', f.loc(lk))
     bad = []
     n = 0
+    # interval (1, 4): two split candidates k = 2, 3 examined in sequence (stale-accumulator slips need two)
     for mname, mval in consts.items():
         want_min = mname.endswith('MINIMIZE')
-        for cur in (2, 3, 4):            # candidate val = 1 + 2 = 3
-            D = Table('D', {(1, 2): 1, (2, 4): 2, (1, 4): cur})
+        for o in orders.weak_orderings(['cur', 'v2', 'v3']):
+            cur, v2, v3 = 10 + o['cur'], 10 + o['v2'], 10 + o['v3']
+            D = Table('D', {(1, 2): 0, (2, 4): v2, (1, 3): 0, (3, 4): v3, (1, 4): cur})
             M = Table('M', {(1, 4): -1})
-            tabs = {}
-            for x in ast.walk(lk):
-                if isinstance(x, ast.Subscript) and isinstance(x.slice, ast.Tuple) and isinstance(x.value, ast.Name):
-                    tabs.setdefault(x.value.id, None)
-            reads = {x.value.id for x in ast.walk(lk) if isinstance(x, ast.Subscript) and isinstance(x.ctx, ast.Load)
-                     and isinstance(x.value, ast.Name) and isinstance(x.slice, ast.Tuple)}
-            stores = {x.value.id for x in ast.walk(lk) if isinstance(x, ast.Subscript) and isinstance(x.ctx, ast.Store)
-                      and isinstance(x.value, ast.Name) and isinstance(x.slice, ast.Tuple)}
-            val_t = sorted(reads & stores)
-            ptr_t = sorted(stores - reads)
-            if len(val_t) != 1 or len(ptr_t) != 1:
-                raise shape_error('optimalPartition: cannot identify value/split tables', f.loc(lk))
             env = dict(consts)
-            env.update({mode_param: mval, iv: 1, dv: 3, kv: 2, val_t[0]: D, ptr_t[0]: M})
+            env.update({mode_param: mval, iv: 1, dv: 3, val_t[0]: D, ptr_t[0]: M})
             try:
-                orders.run_block(pre_k, env)
-                orders.run_block(lk.body, env)
+                orders.run_block(li.body, env)
             except orders.Unsupported as e:
                 raise shape_error('optimalPartition cell update not interpretable: %s' % e, f.loc(lk))
             n += 1
-            improved = (3 < cur) if want_min else (3 > cur)
-            exp_d = 3 if improved else cur
-            exp_m = 2 if improved else -1
+            best = min(cur, v2, v3) if want_min else max(cur, v2, v3)
             got_d, got_m = D.read((1, 4)), M.read((1, 4))
-            if (got_d, got_m) != (exp_d, exp_m) and len(bad) < 6:
-                bad.append({'mode': mname, 'current D[i,j]': cur, 'candidate D[i,k]+D[k,j]': 3,
-                            'after update (D[i,j], M[i,j])': [got_d, got_m], 'expected': [exp_d, exp_m]})
+            if best == cur:
+                ok_m = got_m == -1
+            else:
+                ok_m = got_m in [k for k, v in ((2, v2), (3, v3)) if v == best]
+            if (got_d != best or not ok_m) and len(bad) < 6:
+                bad.append({'mode': mname, 'ordering of (current, candidate k=2, candidate k=3)': orders.describe(o),
+                            'after both candidates (D[i,j], M[i,j])': [got_d, got_m], 'expected D[i,j]': best,
+                            'expected split': 'none' if best == cur else 'a candidate attaining it'})
     ctx.check(not bad, 'C12.D', f,
               'for mode=MINIMIZE the cell keeps the smaller of candidate/current, for MAXIMIZE the larger; the split '
-              'point is recorded exactly when the value changes (2 modes x 3 orderings)',
+              'point is recorded exactly when the value changes (2 modes x 13 orderings of the current value and two successive candidates)',
               witness={'counter-examples': bad}, node=lk, key='direction')
     ctx.extra['cases_interpreted'] = n
 
